@@ -358,6 +358,7 @@ impl Prop for Lww {
                     let k = keyname(c, *key);
                     let num = w.alloc.int();
                     let mut wrote: Option<String> = None;
+                    let mut created: Option<(String, Option<String>)> = None;
                     {
                         let rep = &w.reps[r];
                         let mut txn = rep.doc.transact_mut();
@@ -369,6 +370,7 @@ impl Prop for Lww {
                                 _ => None,
                             }
                         };
+                        let target_map = target.clone();
                         if let Some(Out::YMap(inner)) = target.and_then(|m| m.get(&txn, &k)) {
                             let tag = tag_of(&txn, &Out::YMap(inner.clone()));
                             inner.insert(&mut txn, format!("extra{}", num), num as f64);
@@ -376,9 +378,31 @@ impl Prop for Lww {
                                 held.push((r, inner.clone(), tag.clone()));
                             }
                             wrote = Some(tag);
+                        } else if let Some(m) = target_map {
+                            // no nested map there (never written, removed, or a plain value):
+                            // get_or_init stores a fresh one - a write on the key like any other
+                            let fresh: yrs::MapRef = m.get_or_init(&mut txn, k.clone());
+                            fresh.insert(&mut txn, "id", num as f64);
+                            created = Some((format!("m{}", num as f64), None));
                         }
                     }
-                    if w.register_local(r, vec![]).is_some() {
+                    let registered = w.register_local(r, vec![]);
+                    if let Some((tag, _)) = &created {
+                        let after = view(&w.reps[r]);
+                        ensure!(
+                            after.get(&(c, k.clone())) == Some(tag),
+                            "c05/get-or-init-not-stored",
+                            "{}: get_or_init on a key without a nested map must store a fresh one, but the key shows {:?}",
+                            when,
+                            after.get(&(c, k.clone()))
+                        );
+                        if let Some(u) = registered {
+                            truth.ops.entry((c, k.clone())).or_default().push(KOp { update: u, value: Some(tag.clone()) });
+                            truth.inner.insert(tag.clone(), vec![]);
+                            st.hit("nested_maps_created_by_get_or_init");
+                        }
+                    }
+                    if registered.is_some() {
                         if let Some(tag) = wrote {
                             truth.inner.entry(tag).or_default().push(format!("{}", num as f64));
                             st.hit("writes_into_nested_maps");
@@ -531,7 +555,7 @@ pub fn property() -> Property {
     Property {
         id: "C05",
         level: "exploration",
-        rule: "2..3/4 author replicas performing 4..26/44 single-operation transactions: set(unique number or nested map with unique marker) / remove / clear on 3 keys, and writes INTO the nested map a key currently shows (content arriving in a subtree that another replica removes or overwrites concurrently), of a root map, of a nested map and of the attributes of an XML element, interleaved with causal deliveries and syncs (so the happened-before relation between operations is exactly the harness' received-set bookkeeping); after every step the touched author, and a passive observer with an arbitrary schedule at its causally closed gap-free points, are checked per key against rules O1-O4 (visible value comes from a maximal received write; absent only with no write or a maximal removal; all maximal writes => present; a write that follows all other writes and was not seen by a removal wins; subtree of an overwritten/removed nested map unreachable); at quiescence all replicas agree, all replicas have deleted the same ids (an entry of a removed subtree that stays alive on one of them shows here), and references to removed nested maps held on skip_gc replicas show no entries.  Non-trivial = a key has >=2 concurrent maximal operations one of which is a removal, or a write survived a concurrent removal; distinct = distinct generated case".into(),
+        rule: "2..3/4 author replicas performing 4..26/44 single-operation transactions: set(unique number or nested map with unique marker) / remove / clear on 3 keys, get_or_init of a nested map on a key that shows none (must store a fresh one: a write like any other), and writes INTO the nested map a key currently shows (content arriving in a subtree that another replica removes or overwrites concurrently), of a root map, of a nested map and of the attributes of an XML element, interleaved with causal deliveries and syncs (so the happened-before relation between operations is exactly the harness' received-set bookkeeping); after every step the touched author, and a passive observer with an arbitrary schedule at its causally closed gap-free points, are checked per key against rules O1-O4 (visible value comes from a maximal received write; absent only with no write or a maximal removal; all maximal writes => present; a write that follows all other writes and was not seen by a removal wins; subtree of an overwritten/removed nested map unreachable); at quiescence all replicas agree, all replicas have deleted the same ids (an entry of a removed subtree that stays alive on one of them shows here), and references to removed nested maps held on skip_gc replicas show no entries.  Non-trivial = a key has >=2 concurrent maximal operations one of which is a removal, or a write survived a concurrent removal; distinct = distinct generated case".into(),
         assumptions: vec![
             "removals that found nothing are not operations".into(),
             "which of several concurrent writes wins is not fixed by this oracle (convergence is C01); a write that lost to another concurrent write need not survive the removal of the winner (DESIGN section 7)".into(),
